@@ -432,6 +432,31 @@ def range_incl_contains(I, st, depth, callee, args, body, ln):
     return BOOL
 
 
+def range_contains(I, st, depth, callee, args, body, ln):
+    """core::ops::Range::contains: start <= x < end"""
+    r = deref(I, st, args[0])
+    x = deref(I, st, args[1])
+    if isinstance(r, Agg) and len(r.f) >= 2:
+        lo, hi = r.f[0], r.f[1]
+        if isinstance(x, Fl) or isinstance(lo, Fl):
+            c1 = D.fcmp("Le", lo, x)
+            c2 = D.fcmp("Lt", x, hi)
+        elif is_scalar(x) and is_scalar(lo) and is_scalar(hi):
+            c1 = D.cmpop("Le", lo, x)
+            c2 = D.cmpop("Lt", x, hi)
+        else:
+            return BOOL
+        if c1 == 1 and c2 == 1:
+            return 1
+        out = set()
+        if D.contains(c1, 1) and D.contains(c2, 1):
+            out.add(1)
+        if D.contains(c1, 0) or D.contains(c2, 0):
+            out.add(0)
+        return D.norm_set(frozenset(out))
+    return BOOL
+
+
 # ---------------------------------------------------------------------------
 # conversions
 
@@ -636,6 +661,7 @@ TABLE = {
     "core::f32::<impl f32>::min": f_min,
     "core::ops::range::RangeInclusive::<Idx>::new": range_incl_new,
     "core::ops::range::RangeInclusive::<Idx>::contains": range_incl_contains,
+    "core::ops::range::Range::<Idx>::contains": range_contains,
     "core::ops::deref::Deref::deref": deref_ref,
     "std::panicking::begin_panic": _panic("panic"),
     "std::rt::begin_panic": _panic("panic"),
